@@ -1,13 +1,13 @@
 SPECIFICATION Spec
 CONSTANTS
-  Devs <- DevTwo
+  Devs <- DevCode
   Ops <- AllOps
   ByteStrings <- BytesQuick
   NumSeqs <- NumsThorough
   NewObjs <- MCNewObjs
   MaxDepth = 2
   Starts <- StartsThorough
-  Allowed = {"content.sharedStream", "resources.nameCollision"}
+  Allowed = {}
   Emit = TRUE
   EmitMod = 2000
   EmitModV = 200
